@@ -133,12 +133,12 @@ def parse_assumptions(output, theorems):
     return res
 
 
-def build_harness(rundir):
+def build_harness(rundir, family):
     hdir = os.path.join(VERIF, "harness")
-    shutil.copyfile(os.path.join(REPO, "go.sum"), os.path.join(hdir, "go.sum"))
     exe = os.path.join(rundir, "harness")
     with Lock("go"):
-        rc, out = sh(["go", "build", "-tags", "verif", "-o", exe, "."], cwd=hdir, timeout=1800)
+        shutil.copyfile(os.path.join(REPO, "go.sum"), os.path.join(hdir, "go.sum"))
+        rc, out = sh(["go", "build", "-tags", "verif", "-o", exe, "./cmd/" + family], cwd=hdir, timeout=1800)
     return rc == 0, out, exe
 
 
@@ -268,7 +268,7 @@ def run_check(cfg, tier, seed, replay=None):
         # 3. correspondence + glue
         stats_all = []
         if cfg.get("family"):
-            okh, outh, exe = build_harness(rundir)
+            okh, outh, exe = build_harness(rundir, cfg["family"])
             if not okh:
                 violations.append(("unproved", {"what": "harness no longer builds against /repo (hook or API changed)", "go_error": outh[-3000:]}))
             else:
@@ -280,7 +280,7 @@ def run_check(cfg, tier, seed, replay=None):
                     n = rp.get("n", n)
                 for sd in seeds:
                     od = os.path.join(rundir, "s%d" % sd)
-                    rc, hout = sh([exe, "-seed", str(sd), "-n", str(n), "-tier", tier, "-out", od, cfg["family"]], timeout=3000,
+                    rc, hout = sh([exe, "-seed", str(sd), "-n", str(n), "-tier", tier, "-out", od], timeout=3000,
                                   env=dict(GOENV, VERIF_REPO=REPO, VERIF_DIR=VERIF))
                     if rc != 0:
                         violations.append(("input", {"what": "harness run crashed (panic in the implementation under test?)", "seed": sd, "n": n, "output": hout[-4000:]}))
@@ -313,7 +313,7 @@ def run_check(cfg, tier, seed, replay=None):
             n2 = cfg["n_thorough"]
             for sd in [seed + 101, seed + 202, seed + 303]:
                 od = os.path.join(rundir, "search%d" % sd)
-                rc, hout = sh([exe, "-seed", str(sd), "-n", str(n2), "-tier", "thorough", "-out", od, cfg["family"]], timeout=3000,
+                rc, hout = sh([exe, "-seed", str(sd), "-n", str(n2), "-tier", "thorough", "-out", od], timeout=3000,
                               env=dict(GOENV, VERIF_REPO=REPO, VERIF_DIR=VERIF))
                 if rc != 0:
                     violations.append(("input", {"what": "harness run crashed during search", "seed": sd, "n": n2, "output": hout[-4000:]}))
